@@ -44,8 +44,9 @@ VARIABLES prog,    \* the class declaration chosen by Init
           evs,     \* its callback sequence
           pc,      \* index of the next callback
           m,       \* listener state
-          last     \* name of the last callback (history; hidden by VIEW)
-vars == <<prog, evs, pc, m, last>>
+          last,    \* name of the last callback (history; hidden by VIEW)
+          hist     \* history: after every callback [name, order counter, open classes, in extends clause, a current symbol?]
+vars == <<prog, evs, pc, m, last, hist>>
 
 Intended == [fusePrefixes |-> FALSE, labelKeepsLast |-> FALSE, clauseDimsOverride |-> FALSE,
              shallowDimsCopy |-> FALSE, commentKeepsQuotes |-> FALSE, importListFuses |-> FALSE, noUnshare |-> FALSE]
@@ -520,9 +521,13 @@ Init == /\ prog \in Programs
         /\ pc = 1
         /\ m = InitM
         /\ last = "init"
+        /\ hist = <<>>
+Snapshot(name, mm) == [e |-> name, symcount |-> mm.symcount, depth |-> Len(mm.stk), inext |-> mm.inext, sym |-> mm.symnode # 0,
+                       err |-> mm.err # ""]
 Cb(name) == /\ pc <= Len(evs) /\ evs[pc].e = name
             /\ m' = Handle(m, evs[pc], Switches)
             /\ pc' = pc + 1 /\ last' = name
+            /\ hist' = Append(hist, Snapshot(name, m'))
             /\ UNCHANGED <<prog, evs>>
 EnterClassDefinition      == Cb("EnterClassDefinition")
 EnterElementList          == Cb("EnterElementList")
@@ -543,7 +548,7 @@ ExitComposition           == Cb("ExitComposition")
 ExitClassSpec             == Cb("ExitClassSpec")
 ExitClassSpecBase         == Cb("ExitClassSpecBase")
 ExitClassDefinition       == Cb("ExitClassDefinition")
-Finish == /\ pc = Len(evs) + 1 /\ pc' = pc + 1 /\ last' = "Finish" /\ UNCHANGED <<prog, evs, m>>
+Finish == /\ pc = Len(evs) + 1 /\ pc' = pc + 1 /\ last' = "Finish" /\ UNCHANGED <<prog, evs, m, hist>>
 Next == \/ EnterClassDefinition \/ EnterElementList \/ ExitElementList \/ EnterComponentClause
         \/ EnterComponentDeclaration \/ EnterDeclaration \/ EnterElementModification \/ ExitDeclaration
         \/ ExitComponentDeclaration \/ ExitComponentClause \/ EnterExtendsClause \/ ExitExtendsClause
@@ -585,6 +590,7 @@ Emit ==
     IF last' = "Finish"
     THEN PrintT(<<"PROG", ToJson([family |-> prog.family, class |-> prog.c, tags |-> Tags(prog), nevents |-> Len(evs),
                                   callbacks |-> [n \in {evs[i].e : i \in DOMAIN evs} |-> Cardinality({i \in DOMAIN evs : evs[i].e = n})],
+                                  trace |-> hist,
                                   expect |-> Expected(prog.c),
                                   model |-> Outcome(m),
                                   asbuilt |-> Outcome(RunAll(prog.c, AsBuilt))])>>)
